@@ -119,6 +119,17 @@ CHECKS = {
             'unconstrained answer must be exactly the latest version; GetSupportedLanguages must equal the stored languages.',
             'Single provider with context states enabled in GetMdState (library default); handle strings are schema-valid.',
             'DESIGN.md section 2 C20'),
+    'C10': ('hypothesis generated histories of set_location and SetContextState invocations executed end to end '
+            '(consumer client, loop-back transport, SetService, SCO worker loop run inline, tutorial context provider) '
+            'with an invariant oracle over the provider table and the context reports',
+            'After every step the provider context-state table is scanned: at most one associated state per descriptor, '
+            'unique state handles, binding / unbinding version and time set on every association change and equal to the '
+            'MdibVersion of the commit that made the change visible (the harness keeps the previous association per state); '
+            'invalid proposals must report Fail and leave the MDIB unchanged; states carried by EpisodicContextReports '
+            'must agree with the table.',
+            'Proposals that would move an associated state to No/Pre are sent as Dis (BICEPS life cycle); the fixture '
+            'offers a SetContextState operation for the patient context only, locations change through set_location.',
+            'DESIGN.md section 2 C10'),
 }
 
 NOT_YET = {}
